@@ -155,15 +155,20 @@ fn check_feed<const N: usize>() {
     kani::assume(stop <= N);
     let mut sink = Sink::new(stop);
     let route: u8 = kani::any();
+    let inexact: bool = kani::any();
     let cnt = {
         let mut f = |v: u32| sink.take(v);
         let mut cb: OpaqueCallback<u32> = (&mut f).into();
-        match route % 3 {
-            0 => items.iter().copied().feed_into_mut(&mut cb),
-            1 => items.iter().copied().feed_into(cb),
+        // (sources with an exact size hint and sources whose lower size hint is 0)
+        match (route % 3, inexact) {
+            (0, false) => items.iter().copied().feed_into_mut(&mut cb),
+            (0, true) => items.iter().copied().filter(|_| true).feed_into_mut(&mut cb),
+            (1, false) => items.iter().copied().feed_into(cb),
+            (1, true) => items.iter().copied().filter(|_| true).feed_into(cb),
             _ => { cb.extend(items.iter().copied()); usize::MAX }
         }
     };
+    kani::cover!(inexact && route % 3 == 0, "source with an inexact size hint");
     let expect = feed_expect(N, stop);
     if route % 3 != 2 { assert!(cnt == expect, "C15 feed reports the number of items offered"); }
     assert!(sink.n == expect, "C15 sink invoked once per offered item and never after it returned false");
